@@ -505,6 +505,7 @@ class DirectionalVariogram(Variogram):
         elif width > np.max(self.distance):
             print('The bandwidth is larger than the maximum separating '
                   'distance. Thus it will have no effect.')
+            self._bandwidth = width
         else:
             self._bandwidth = width
 
